@@ -70,6 +70,14 @@ func H_C08() {
 	vQuiesce()
 	vAssert(s.refCount == 0, "reference count is zero after every holder closed")
 	vAssert(!s.Open(), "Open fails after the last reference was dropped")
+	if vChoice("surplus", 0, 2) == 1 {
+		// a Close without a matching reference (the repository's own TestStoreDiskShutdown does this: StoreToDisk
+		// and its caller both close the snapshot). Only the retire-exactly-once / collector-progress clauses are
+		// asserted after it; what Open answers on an over-closed handle is outside the claim.
+		s.Close()
+		vQuiesce()
+		vReach("surplus-close")
+	}
 	// the collector must be able to make progress on all later snapshots
 	s2, _ := db.NewSnapshot()
 	s2.Close()
